@@ -5,14 +5,17 @@
 package staking
 
 import (
+	"bytes"
 	"fmt"
 	"math/big"
 	"sort"
+	"time"
 
 	sdkmath "cosmossdk.io/math"
 	codectypes "github.com/cosmos/cosmos-sdk/codec/types"
 	sdk "github.com/cosmos/cosmos-sdk/types"
 	"github.com/cosmos/cosmos-sdk/x/authz"
+	banktypes "github.com/cosmos/cosmos-sdk/x/bank/types"
 	distrtypes "github.com/cosmos/cosmos-sdk/x/distribution/types"
 	stakingtypes "github.com/cosmos/cosmos-sdk/x/staking/types"
 	"github.com/ethereum/go-ethereum/common"
@@ -24,6 +27,9 @@ import (
 	"verifharness/asm"
 	"verifharness/chain"
 )
+
+// RelayerExtra is the additional genesis balance of the relayer a0.
+const RelayerExtra = 600_000_000
 
 // CPC is the fixed address of the staking precompile.
 var CPC = cpctypes.CpcStakingFixedAddress
@@ -107,10 +113,12 @@ type World struct {
 	D        []string               // delegators (EOAs a0.. and contracts)
 	V        []string               // validators v0.. (operator of vi is ai)
 	ValOrder []string               // validators ordered by operator bech32 string (tie-break of transfer())
+	Iter     []string               // validators ordered by address bytes (store iteration order of a delegator's delegations)
 	Decimals uint32
 	MinW     int64 // minimum reward withdrawal amount of withdrawRewards()
 	Relayer  *chain.Acct
 	NEoa     int
+	O        Opts
 }
 
 // Opts of a world.
@@ -121,11 +129,14 @@ type Opts struct {
 	BaseFee  int64
 	ValBond  int64
 	CBal     int64 // balance of each contract caller
+	// staking params
+	UnbondingSecs int64
+	MaxEntries    uint32
 }
 
 // DefaultOpts: 3 validators, 6 EOAs.
 func DefaultOpts() Opts {
-	return Opts{NEoa: 6, NVals: 3, Decimals: 6, BaseFee: 10, ValBond: 100, CBal: 1000}
+	return Opts{NEoa: 6, NVals: 3, Decimals: 6, BaseFee: 10, ValBond: 100, CBal: 1000, UnbondingSecs: 20, MaxEntries: 3}
 }
 
 // ValAddr of validator i.
@@ -142,14 +153,14 @@ var StakingMsgTypes = []string{
 
 // New builds the chain.
 func New(o Opts) *World {
-	w := &World{Names: map[common.Address]string{}, Addr: map[string]common.Address{}, Acct: map[string]*chain.Acct{}, NEoa: o.NEoa}
+	w := &World{Names: map[common.Address]string{}, Addr: map[string]common.Address{}, Acct: map[string]*chain.Acct{}, NEoa: o.NEoa, O: o}
 	co := chain.DefaultOpts()
 	co.NAccts = o.NEoa
 	co.NVals = o.NVals
 	co.ValBond = o.ValBond
 	co.BaseFee = o.BaseFee
 	co.Bal2 = 0
-	co.Bal = 200_000_000
+	co.Bal = 150_000_000
 	co.CpcDeployStaking = o.Decimals == 0
 	codes := [][]byte{forwarder(asm.CALL, false), forwarder(asm.DELEGATECALL, false), forwarder(asm.CALLCODE, false),
 		forwarder(asm.STATICCALL, false), forwarder(asm.CALL, true), twice()}
@@ -174,6 +185,22 @@ func New(o Opts) *World {
 			}
 		}
 		gs[authz.ModuleName] = enc.Codec.MustMarshalJSON(authz.NewGenesisState(grants))
+		// the relayer pays for every call made through a contract on both routes: fund it
+		var bg banktypes.GenesisState
+		enc.Codec.MustUnmarshalJSON(gs[banktypes.ModuleName], &bg)
+		extra := sdk.NewCoins(sdk.NewInt64Coin(chain.Denom, RelayerExtra))
+		for i := range bg.Balances {
+			if bg.Balances[i].Address == relayer.Acc().String() {
+				bg.Balances[i].Coins = bg.Balances[i].Coins.Add(extra...)
+			}
+		}
+		bg.Supply = bg.Supply.Add(extra...)
+		gs[banktypes.ModuleName] = enc.Codec.MustMarshalJSON(&bg)
+		var sg stakingtypes.GenesisState
+		enc.Codec.MustUnmarshalJSON(gs[stakingtypes.ModuleName], &sg)
+		sg.Params.UnbondingTime = time.Duration(o.UnbondingSecs) * time.Second
+		sg.Params.MaxEntries = o.MaxEntries
+		gs[stakingtypes.ModuleName] = enc.Codec.MustMarshalJSON(&sg)
 	}
 	c := chain.New(co)
 	w.C = c
@@ -197,6 +224,8 @@ func New(o Opts) *World {
 	for _, x := range vos {
 		w.ValOrder = append(w.ValOrder, x.name)
 	}
+	w.Iter = append([]string{}, w.V...)
+	sort.Slice(w.Iter, func(i, j int) bool { return bytes.Compare(w.Addr[w.Iter[i]].Bytes(), w.Addr[w.Iter[j]].Bytes()) < 0 })
 	w.Addr["bonded"], w.Addr["notbonded"], w.Addr["distr"], w.Addr["fc"] = chain.BondedPool, chain.NotBonded, chain.DistrModule, chain.FeeCollector
 	w.Decimals = 18
 	if o.Decimals != 0 {
